@@ -1,10 +1,14 @@
 /-
   C20 — GraphQL requests target their field; the operations offered and the selected/total counts are exactly the
   root fields passing the filters.  Property theorems only (helpers: SV/Proofs/C20.lean).
+  Argument values: every node a built-in scalar strategy of `get_extra_scalar_strategies` can yield is an acceptable
+  literal of its scalar (section "argument values"); under hypothesis-graphql's leaf contract so is every leaf of such a
+  type in a document.
   What is *not* here (validated by sampling in harness/corr/c20.py): the documents hypothesis-graphql draws are
-  syntactically valid, pass `graphql.validate`, and carry acceptable argument values.
+  syntactically valid and pass `graphql.validate`; values of GraphQL's own scalars (Int, Float, String, ID, Boolean).
 -/
 import SV.Proofs.C20
+import SV.Proofs.C20Scalars
 
 namespace SV.Props.C20
 open SV.Model.C20 SV.Spec.C20 SV.Proofs.C20
@@ -270,6 +274,148 @@ theorem scalars_lookup {β : Type} (op : Op) (cfg : GenConfig) (extra custom : L
       | some y => some y
       | none => assocGet n extra := by
   exact assocGet_dictMerge n extra custom
+
+
+/-! ### argument values: the built-in scalar strategies -/
+
+/-- `nodes.Int`: the node made from a Python `int` carries a GraphQL IntValue literal (`-?(0|[1-9][0-9]*)`) that
+    reads back as the same integer — for every integer. -/
+theorem int_node_reads_back (i : Int) : isIntLiteral (intText i) = true ∧ intValue (intText i) = i :=
+  intText_literal i
+
+/-- Over the whole family `st.integers(min_value=lo, max_value=hi).map(nodes.Int)`: the strategy yields only acceptable
+    `Long` literals **iff** its range is empty or lies inside [-2⁶³, 2⁶³-1]. -/
+theorem ints_safe_for_long_iff (lo hi : Option Int) :
+    SafeFor .long (.ints lo hi) ↔ intsWithinLong lo hi = true := by
+  constructor
+  · intro h
+    cases hw : intsWithinLong lo hi with
+    | true => rfl
+    | false =>
+      obtain ⟨h1, h2⟩ := longWitness_spec lo hi hw
+      have := h _ _ h1
+      rw [h2] at this
+      exact Bool.noConfusion this
+  · exact safeFor_long_of_within lo hi
+
+/-- … and when it does not, `longWitness lo hi` is a concrete draw of the strategy whose node is not acceptable. -/
+theorem ints_unsafe_witness (lo hi : Option Int) (h : intsWithinLong lo hi = false) :
+    render (.ints lo hi) (.int (longWitness lo hi)) = some (.int (intText (longWitness lo hi))) ∧
+    acceptable .long (.int (intText (longWitness lo hi))) = false :=
+  longWitness_spec lo hi h
+
+/-- non-vacuity of both directions: the range as found is safe; one more at the top (or one less at the bottom, or
+    no bound) is not, with the failing draw -/
+example : intsWithinLong (some longMin) (some longMax) = true ∧
+    intsWithinLong (some longMin) (some (longMax + 1)) = false ∧
+    longWitness (some longMin) (some (longMax + 1)) = 9223372036854775808 ∧
+    intsWithinLong (some (longMin - 1)) (some longMax) = false ∧
+    longWitness (some (longMin - 1)) (some longMax) = -9223372036854775809 ∧
+    intsWithinLong none none = false := by decide
+
+/-- the spec names every built-in scalar -/
+theorem extra_scalars_named : ∀ p ∈ extraScalars, (Scalar.ofName p.1).isSome = true := by decide
+
+/-- `get_extra_scalar_strategies`: each of the nine built-in strategies — Date, Time, DateTime, IP, IPv4, IPv6, BigInt,
+    Long, UUID — yields only acceptable literals of the scalar it is registered for, whatever the base strategy draws
+    inside its support. -/
+theorem extra_scalars_safe (name : Name) (g : ScalarGen) (sc : Scalar)
+    (h : (name, g) ∈ extraScalars) (hs : Scalar.ofName name = some sc) : SafeFor sc g := by
+  simp only [extraScalars, List.mem_cons, Prod.mk.injEq, List.not_mem_nil, or_false] at h
+  rcases h with ⟨rfl, rfl⟩ | ⟨rfl, rfl⟩ | ⟨rfl, rfl⟩ | ⟨rfl, rfl⟩ | ⟨rfl, rfl⟩ | ⟨rfl, rfl⟩ | ⟨rfl, rfl⟩ |
+    ⟨rfl, rfl⟩ | ⟨rfl, rfl⟩
+  · cases Option.some.inj (hs.symm.trans (by decide : _ = some Scalar.date)); exact safeFor_dates
+  · cases Option.some.inj (hs.symm.trans (by decide : _ = some Scalar.time)); exact safeFor_times
+  · cases Option.some.inj (hs.symm.trans (by decide : _ = some Scalar.dateTime)); exact safeFor_dateTimes
+  · cases Option.some.inj (hs.symm.trans (by decide : _ = some Scalar.ip)); exact safeFor_ip
+  · cases Option.some.inj (hs.symm.trans (by decide : _ = some Scalar.ipv4)); exact safeFor_ipv4
+  · cases Option.some.inj (hs.symm.trans (by decide : _ = some Scalar.ipv6)); exact safeFor_ipv6
+  · cases Option.some.inj (hs.symm.trans (by decide : _ = some Scalar.bigInt)); exact safeFor_bigInt none none
+  · cases Option.some.inj (hs.symm.trans (by decide : _ = some Scalar.long))
+    exact safeFor_long_of_within _ _ (by decide)
+  · cases Option.some.inj (hs.symm.trans (by decide : _ = some Scalar.uuid)); exact safeFor_uuids
+
+/-- non-vacuity: the supports are inhabited at their extremes (and the nodes are the expected texts) -/
+example : render (.ints (some longMin) (some longMax)) (.int longMax) = some (.int "9223372036854775807".toList) ∧
+    render (.ints (some longMin) (some longMax)) (.int (longMax + 1)) = none ∧
+    render .dates (.date 9999 12 31) = some (.str "9999-12-31".toList) ∧
+    render .dates (.date 1900 2 29) = none ∧
+    render .times (.time 23 59 59 999999) = some (.str "23:59:59.999999Z".toList) ∧
+    render .dateTimes (.dateTime 1 1 1 0 0 0 0) = some (.str "0001-01-01T00:00:00Z".toList) ∧
+    render (.ips none) (.ip4 4294967295) = some (.str "255.255.255.255".toList) ∧
+    render (.ips (some .v6)) (.ip6 (2 ^ 112 + 2 ^ 48)) = some (.str "1::1:0:0:0".toList) ∧
+    render .uuids (.uuid 1) = some (.str "00000000-0000-0000-0000-000000000001".toList) := by
+  decide +kernel
+
+/-- the membership test the correspondence uses (`inSupport`) only accepts nodes the modelled strategy can yield, and
+    accepts every node of an integer strategy -/
+theorem inSupport_exact_on_ints (g : ScalarGen) (v : ValueNode) (lo hi : Option Int) (n : Int) :
+    (inSupport g v = true → ∃ d, render g d = some v) ∧
+    (inRange lo hi n = true → inSupport (.ints lo hi) (.int (intText n)) = true) :=
+  ⟨inSupport_sound g v, inSupport_ints lo hi n⟩
+
+/-- What reaches a document.  For a scalar type named `name` that is a built-in and for which no custom strategy is
+    registered, `graphql_cases` passes the built-in strategy; under hypothesis-graphql's leaf contract (a leaf of a
+    custom scalar type is a value of the passed strategy, `null` only where the type is nullable and nulls are
+    enabled, or the schema's default) every such leaf without a schema default is an acceptable literal of the scalar,
+    or a permitted `null`. -/
+theorem builtin_leaf_acceptable (leaf : ScalarGen → Bool → Option ValueNode → ValueNode → Prop)
+    (hc : LeafContract leaf) (op : Op) (cfg : GenConfig) (custom : List (Name × ScalarGen))
+    (name : Name) (g : ScalarGen) (sc : Scalar)
+    (hreg : assocGet name custom = none)
+    (hg : assocGet name (strategyCall op cfg extraScalars custom).scalars = some g)
+    (hs : Scalar.ofName name = some sc) (nullable : Bool) (v : ValueNode)
+    (hl : leaf g (nullable && cfg.allowNull) none v) :
+    acceptable sc v = true ∨ (v = .null ∧ nullable = true ∧ cfg.allowNull = true) := by
+  rw [scalars_lookup, hreg] at hg
+  have hm : (name, g) ∈ extraScalars := assocGet_mem name g extraScalars hg
+  rcases hc g _ none v hl with ⟨d, hd⟩ | ⟨hn, hv⟩ | hd
+  · exact Or.inl (extra_scalars_safe name g sc hm hs d v hd)
+  · simp only [Bool.and_eq_true] at hn
+    exact Or.inr ⟨hv, hn.1, hn.2⟩
+  · exact absurd hd (by simp)
+
+/-- non-vacuity: a leaf relation meeting the contract, and a built-in that is looked up while another is overridden -/
+example : LeafContract (fun g nullable dflt v => (∃ d, render g d = some v) ∨ (nullable = true ∧ v = .null) ∨
+    dflt = some v) := fun _ _ _ _ h => h
+
+example : assocGet "Long".toList (strategyCall ⟨.query, "Query".toList, "f".toList⟩ ⟨true, false, none⟩ extraScalars
+      [("Date".toList, ScalarGen.uuids)]).scalars = some (.ints (some longMin) (some longMax)) ∧
+    assocGet "Date".toList (strategyCall ⟨.query, "Query".toList, "f".toList⟩ ⟨true, false, none⟩ extraScalars
+      [("Date".toList, ScalarGen.uuids)]).scalars = some .uuids := by
+  decide
+
+/-- `schemathesis.graphql.scalar(name, strategy)`: a successful registration makes exactly that strategy the one
+    `graphql_cases` passes for `name` (also over a built-in of the same name) and changes nothing for any other
+    scalar; it succeeds iff the name is a string and the second argument a strategy. -/
+theorem register_scalar_effect {β : Type} (custom c' : List (Name × β)) (name : Option Name) (ok : Bool) (s : β)
+    (op : Op) (cfg : GenConfig) (extra : List (Name × β))
+    (h : registerScalar custom name ok s = some c') :
+    ∃ n, name = some n ∧ ok = true ∧
+      assocGet n (strategyCall op cfg extra c').scalars = some s ∧
+      ∀ m, m ≠ n → assocGet m (strategyCall op cfg extra c').scalars =
+        assocGet m (strategyCall op cfg extra custom).scalars := by
+  cases name with
+  | none => simp [registerScalar] at h
+  | some n =>
+    cases ok with
+    | false => simp [registerScalar] at h
+    | true =>
+      simp only [registerScalar, if_true, Option.some.injEq] at h
+      subst h
+      refine ⟨n, rfl, rfl, ?_, ?_⟩
+      · rw [scalars_lookup, assocGet_dictSet_self]
+      · intro m hm
+        rw [scalars_lookup, scalars_lookup, assocGet_dictSet_ne _ _ _ _ hm]
+
+theorem register_scalar_rejects {β : Type} (custom : List (Name × β)) (name : Option Name) (ok : Bool) (s : β) :
+    registerScalar custom name ok s = none ↔ (name = none ∨ ok = false) := by
+  cases name <;> cases ok <;> simp [registerScalar]
+
+/-- non-vacuity: overriding a built-in keeps its place in the dict, a new name is appended, bad calls change nothing -/
+example : registerAll [("Date".toList, 1)]
+    [(some "UUID".toList, true, 2), (none, true, 3), (some "Date".toList, true, 4), (some "X".toList, false, 5)] =
+    [("Date".toList, 4), ("UUID".toList, 2)] := by decide
 
 /-! ### prepare_body -/
 
